@@ -4,7 +4,7 @@ use crate::eng_codec::{ReadEngine, WriteEngine};
 use crate::eng_hpack::{self, DecEngine, EncEngine, SplitEngine};
 use crate::eng_pair::PairEngine;
 use crate::eng_raw::{CatalogueServerEngine, HttpEngine};
-use crate::eng_raw2::{AcksEngine, ShutdownEngine};
+use crate::eng_raw2::{AcksEngine, FlowEngine, ShutdownEngine};
 use crate::sim_pair::Focus;
 use crate::runner::{self, drive, finish, Ctx, Engine, Report, RunStats, Tier};
 use serde_json::{json, Value};
@@ -105,6 +105,16 @@ pub fn run_check(id: &str, tier: Tier) -> i32 {
             }
             assumptions.push("the simulator's transport and executor honour the AsyncRead/AsyncWrite/Future contracts; the reference frame parser and HPACK decoder are correct".into());
         }
+        "C03" => {
+            parts.push(run_engine(&FlowEngine, &ctx, scale(tier, 10_000, 300_000)));
+            if parts.iter().all(|p| p.failure.is_none()) {
+                parts.push(run_engine(&PairEngine { focus: Focus::Resets }, &ctx, scale(tier, 6_000, 200_000)));
+            }
+            if parts.iter().all(|p| p.failure.is_none()) {
+                parts.push(run_engine(&PairEngine { focus: Focus::Coop }, &ctx, scale(tier, 3_000, 100_000)));
+            }
+            assumptions.push("connection-level bookkeeping is read through the guarded statistics probe (read-only); stream-level conservation is decided on the wire (never over-credited) and behaviourally (cooperative transfers complete, C06)".into());
+        }
         "C05" | "C17" | "C19" => {
             parts.push(run_engine(&PairEngine { focus: Focus::Resets }, &ctx, scale(tier, 8_000, 300_000)));
             if parts.iter().all(|p| p.failure.is_none()) {
@@ -118,6 +128,11 @@ pub fn run_check(id: &str, tier: Tier) -> i32 {
         }
         "C08" => {
             parts.push(run_engine(&CatalogueServerEngine, &ctx, scale(tier, 12_000, 400_000)));
+            for f in [Focus::Resets, Focus::Faults] {
+                if parts.iter().all(|p| p.failure.is_none()) {
+                    parts.push(run_engine(&PairEngine { focus: f }, &ctx, scale(tier, 5_000, 200_000)));
+                }
+            }
         }
         "C09" => {
             parts.push(run_engine(&CatalogueServerEngine, &ctx, scale(tier, 12_000, 400_000)));
@@ -193,6 +208,7 @@ pub fn replay(path: &str) -> i32 {
         "codec-write" => runner::replay_case(&WriteEngine, case),
         "raw-catalogue-server" => runner::replay_case(&CatalogueServerEngine, case),
         "raw-acks-server" => runner::replay_case(&AcksEngine, case),
+        "raw-flow-server" => runner::replay_case(&FlowEngine, case),
         "raw-shutdown-server" => runner::replay_case(&ShutdownEngine { server: true }, case),
         "raw-goaway-client" => runner::replay_case(&ShutdownEngine { server: false }, case),
         "raw-http-server" => runner::replay_case(&HttpEngine { server: true }, case),
